@@ -2,23 +2,27 @@
    (hand model, tied to /repo by the in-process correspondence runs of C19; the global
    `profile` object is driven through the *translated* _kernprof_overwrite / __call__).
 
-   What is modelled, with the line of kernprof.py it stands for:
-     @_restore_list(sys.argv) / @_restore_list(sys.path)      316-317, 227-253
-         contextlib.contextmanager used as a decorator: the generator is re-created on
-         every call with the argument evaluated ONCE, at decoration (= import) time; it
-         copies the list, runs the body, and writes the copy back after the `yield` -
-         there is no try/finally, so an exception skips the write-back.
-     sys.argv = [options.script] + options.args               411   (REBINDS the name)
-     sys.path.insert(0, ...)                                   417, 426, 461 (in place)
-     install_profiler(prof) ... install_profiler(None)         446-450, 521-523
-     builtins.__dict__['profile'] = prof                       452-453 (never removed)
-     rt = RepeatedTimer(...) twice, rt.stop() once             465-469, 501-503
-     try / except (KeyboardInterrupt, SystemExit) / finally    470-523
+   What is modelled, with the lines of kernprof.py (repaired tree) it stands for:
+     @_restore_sys_lists('argv', 'path')                       258-285, 348
+         a contextlib.contextmanager used as a decorator: on every CALL of main the lists
+         sys.argv / sys.path are looked up, copied, the body runs, and in a `finally` the
+         copies are written back and the names are put back on those list objects.
+     sys.argv = [options.script] + options.args               442   (REBINDS the name)
+     sys.path.insert(0, ...)                                   448, 457, 495 (in place)
+     old_global_state = ...; install_profiler(prof); ...        483-484, 556-558
+         ... global_profiler._profile, .enabled = old_global_state   (in the finally)
+     builtins.__dict__['profile'] = prof                       486-487 (never removed)
+     rt = RepeatedTimer(...) once, rt.stop() in the finally    500-501, 533-535
+     try / except (KeyboardInterrupt, SystemExit) / finally    504-558
 
    sys.argv and sys.path are *references* into a heap of list objects, so rebinding the
    name and updating the object in place are different things.
 
-   The six booleans of [Fixes] switch each observed defect off (see [current]). *)
+   The model is parametrised by six booleans [Fixes]; all-false is the tree before the four
+   "fix:" commits 204c2e5, d567ae1, f436ae3, 2d3e878 (decorators capturing the lists at
+   import and writing back without a finally, install_profiler(None), two timers).
+   [current] is the tree as it is now.  Keeping the unrepaired behaviours in the model lets
+   Props/C19.v also state that each repair is necessary. *)
 From LP Require Import Prelude.Py Explicit.Base Gen.GlobalProfiler.
 
 (* ---- repairs that can be switched on ------------------------------------------------ *)
@@ -32,8 +36,13 @@ Record Fixes := mkFixes {
   fx_builtin : bool        (* main removes / restores builtins.profile *)
 }.
 
-(* ===> THE ONE PLACE TO EDIT WHEN /repo IS REPAIRED: the behaviour of the current tree. <=== *)
-Definition current : Fixes := mkFixes false false false false false false.
+(* ===> the behaviour of the current tree (edit here if kernprof.main changes again) <===
+   repaired: lists looked up at call time + names put back (f436ae3), finally (d567ae1),
+   decorator state handed back (2d3e878), one timer (204c2e5).
+   not changed: sys.argv is still rebound by main (harmless now); builtins.profile stays. *)
+Definition current : Fixes := mkFixes false true true true true false.
+(* the tree before the repairs *)
+Definition unrepaired : Fixes := mkFixes false false false false false false.
 
 (* ---- the state --------------------------------------------------------------------- *)
 Definition heap := Z -> list string.
@@ -118,44 +127,44 @@ Definition assign_argv (cfg : Fixes) (v : list string) (c : cell) : cell :=
 
 (* ---- the body of main, top to bottom ------------------------------------------------- *)
 Definition main_body (cfg : Fixes) (o : Opts) (p : Prog) (s : St) : result * St :=
-  (* 411: sys.argv = [options.script] + options.args *)
+  (* 442: sys.argv = [options.script] + options.args *)
   let s := upd_argv (assign_argv cfg (o_new_argv o)) s in
-  (* 412-417: -m: sys.path.insert(0, cwd) *)
+  (* 443-448: -m: sys.path.insert(0, cwd) *)
   let s := upd_path (fun c => if o_module o then insert0 (o_cwd o) c else c) s in
-  (* 418-428: -s: sys.path.insert(0, dirname(setup)); the setup file is executed *)
+  (* 449-459: -s: sys.path.insert(0, dirname(setup)); the setup file is executed *)
   let s := upd_path (fun c => match o_setup o with Some d => insert0 d c | None => c end) s in
-  (* 430-438: prof = LineProfiler() / ContextualProfile() *)
+  (* 461-469: prof = LineProfiler() / ContextualProfile() *)
   let pr := Ext (next_prof s) in
   let s := set_next_prof (next_prof s + 1) s in
-  (* 440-450: install_profiler(prof) *)
+  (* 471-484: old_global_state = ...; install_profiler(prof) *)
   let found := gp s in
   let s := set_gp (overwrite (gp s) (Some pr)) s in
-  (* 452-453: builtins.__dict__['profile'] = prof  (-l implies -b) *)
+  (* 486-487: builtins.__dict__['profile'] = prof  (-l implies -b) *)
   let found_builtin := builtin s in
   let s := set_builtin (if o_line o || o_builtin o then Some pr else builtin s) s in
-  (* 455-461: script mode: sys.path.insert(0, dirname(script_file)) *)
+  (* 489-495: script mode: sys.path.insert(0, dirname(script_file)) *)
   let s := upd_path (fun c => if o_module o then c else insert0 (o_script_dir o) c) s in
-  (* 465-469: the RepeatedTimer, created twice *)
+  (* 499-501: the RepeatedTimer (created twice before 204c2e5) *)
   let timed := 0 <? o_interval o in
   let s := set_timers (timers s + (if timed then (if fx_timer cfg then 1 else 2) else 0)) s in
-  (* 470-500: try: the program runs; its profiled parts run with the profiler enabled and
+  (* 502-532: try: the program runs; its profiled parts run with the profiler enabled and
      every one of them switches it off again on the way out (wrappers / runctx use finally) *)
   let found_tracing := tracing s in
   let s := set_tracing (Some pr) s in
   let s := upd_path (fun c => if p_touch_path p then append_cur "/prog-added" c else c) s in
   let s := upd_argv (fun c => if p_touch_argv p then append_cur "prog-added" c else c) s in
   let s := set_tracing found_tracing s in
-  (* 499-500: except (KeyboardInterrupt, SystemExit): pass     501: finally: *)
-  (* 502-503: rt.stop() - the second timer only *)
+  (* 531-532: except (KeyboardInterrupt, SystemExit): pass     533: finally: *)
+  (* 534-535: rt.stop() *)
   let s := set_timers (timers s - (if timed then 1 else 0)) s in
-  (* 521-523: install_profiler(None) *)
+  (* 556-558: the decorator state is handed back (install_profiler(None) before 2d3e878) *)
   let s := set_gp (if fx_profile cfg
                    then set_enabled (f_enabled found) (set_profile (f_profile found) (gp s))
                    else overwrite (gp s) None) s in
   let s := set_builtin (if fx_builtin cfg then found_builtin else builtin s) s in
   (result_of (effective_outcome o p found_builtin), s).
 
-(* ---- @_restore_list(<list>) as contextlib runs it ------------------------------------- *)
+(* ---- the restoring decorator(s) around main, as contextlib runs them ------------------------------------- *)
 Definition restore_cell (cfg : Fixes) (lst : Z) (old : list string) (c : cell) : cell :=
   let c1 := write_obj lst old c in               (* lst[:] = old *)
   if fx_at_call cfg then bind lst c1 else c1.
